@@ -99,7 +99,7 @@ class World:
 
             from .router import gen_graph
 
-            self.net = OSMRoadNetwork(gen_graph(rng), default_speed_kmph=40.0)
+            self.net = OSMRoadNetwork(gen_graph(rng, realistic=True), default_speed_kmph=40.0)
             links = self.net.link_helper.links
             self.link_ids = sorted(links.keys())
             cells = set()
@@ -226,6 +226,10 @@ class World:
                 soc = rng.uniform(0.3, 0.9) if rng.random() < 0.8 else rng.uniform(0.001, 0.006)
                 if rng.random() < 0.12:
                     soc = 1.0       # a full vehicle in a queue: its turn to charge fails every step
+                elif rng.random() < 0.25:
+                    # nearly full: it finishes charging within a step or two, so plugs are freed by
+                    # the vehicles' own updates (in the update phase, just before the queue is served)
+                    soc = rng.uniform(0.93, 0.992)
             if with_humans and rng.random() < 0.3:
                 attr = HumanDriverAttributes(vid, rng.choice(["sched_on", "sched_off"]), rng.choice(self.base_ids), rng.random() < 0.3)
                 driver = HumanAvailable(attr) if rng.random() < 0.6 else HumanUnavailable(attr)
